@@ -216,7 +216,7 @@ def match_stmts(ctx, rule, construct, body, specs, names=None, mod=None, node=No
         for t in vocab(w):
             allowed.add(t)
             allowed |= _PARTNER.get(t, set())
-    OPS = ("Not", "USub", "Add", "Sub", "Mult", "Div", "FloorDiv", "Lt", "LtE", "Gt", "GtE", "Eq", "NotEq")      # arithmetic / comparison changes are changes of meaning
+    OPS = ("Not", "USub", "Add", "Sub", "Mult", "Div", "FloorDiv", "Mod", "Pow", "Lt", "LtE", "Gt", "GtE", "Eq", "NotEq", "In", "NotIn", "Is", "IsNot")      # arithmetic / comparison changes are changes of meaning
 
     bound = {x.id for g in got for x in ast.walk(g) if isinstance(x, ast.Name) and isinstance(x.ctx, ast.Store)}       # locals may carry any name
 
